@@ -13,13 +13,17 @@ FILES = ['src/containers/specialized/int_vec.rs', 'src/containers/specialized/in
 
 def run(ctx):
     fx = ctx.facts("default")
-    fixtures.run(ctx, ['taint', 'remainder', 'narrow'])
+    fixtures.run(ctx, ['taint', 'remainder', 'narrow', 'widthcheck'])
     # every stored value is looked at: chunks_exact tails are handled
     remainder.run(ctx, fx, FILES)
     ctx.floor('R-REMAINDER.sites', 1)
     # a delta / value that is range-checked before it is packed is checked at full width
     narrow.run(ctx, fx, FILES)
     ctx.floor('R-NARROWCHECK.casts', 8)
+    # block base and in-block delta are both refused when they do not fit their configured width
+    narrow.packed_value_checked(ctx, fx, "blob_store::sorted_uint_vec::SortedUintVecBuilder::compress_values",
+                                r"::store_(sample|delta)_static$")
+    ctx.floor('R-WIDTHCHECK.sites', 2)
     rc.accessors(ctx, fx, FILES, r'^(get|get2|get_block|set|get_unchecked_checked|at)$', "R-GUARD.refusal")
     ctx.floor("R-GUARD.refusal.accessors", 6)
     rc.unsafe_sinks(ctx, fx, FILES, "R-GUARD")
